@@ -406,6 +406,15 @@ def unit_torch_wrappers(prop):
     return unit
 
 
+def unit_header_validation(prop):
+    def unit(tier, known):
+        from contracts import sphere as C
+        jobs = [("contracts.sphere", "generate_header", (prop, label)) for label in C.header_labels()]
+        return run_parallel("read_header_validation", jobs, to_case=C.to_case_header, replay_module="rtc.c12")
+    unit.__name__ = "read_header_validation"
+    return unit
+
+
 def unit_stack(prop):
     def unit(tier, known):
         from contracts import post_stack as C
@@ -425,7 +434,7 @@ UNITS = {
     "C17": [unit_std("C17", "accumulate_vector"), _lazy("contracts.standardize", "unit_sanitize_accepts_saved", "C17"), unit_readers("C17")],
     "C08": [unit_alias_arg("C08")],
     "C18": [unit_pre("C18", "preemph"), unit_pre("C18", "dither")],
-    "C12": [unit_copy_samples("C12"), _lazy("contracts.sphere", "unit_g711", "C12")],
+    "C12": [unit_copy_samples("C12"), _lazy("contracts.sphere", "unit_g711", "C12"), unit_header_validation("C12")],
     "C20": [unit_circshift("C20"), _lazy("contracts.util_misc", "unit_angular", "C20")],
     "C05": [unit_tri("C05", "init"), unit_tri("C05", "truncated"), unit_fbank("C05", "init"), unit_fbank("C05", "truncated")],
     "C06": [unit_tri("C06", "truncated"), unit_tri("C06", "init"), unit_fbank("C06", "truncated"), unit_fbank("C06", "init")],
